@@ -10,9 +10,33 @@ use crate::sut::{self, Ran, R};
 pub fn agree(model: &Result<V, Stop>, got: &R) -> bool {
     match (model, got) {
         (Ok(v), R::Val(g)) => same(v, g),
+        (Err(Stop::Err(ErrClass::Range)), R::Err(..)) => true,
         (Err(Stop::Err(c)), R::Err(c2, _)) => c == c2,
         _ => false,
     }
+}
+
+/// The reference semantics of a program: one outcome, or two where the statement leaves a choice
+/// (exists_one may or may not visit elements after its second hit). Returns (result, host log, state) per variant.
+pub fn model_variants(e: &E, vars: &[(String, V)], table: &crate::model::eval::Table, map_order_known: bool) -> Vec<(Result<V, Stop>, St)> {
+    model_variants_with(e, vars, table, map_order_known, &[])
+}
+
+pub fn model_variants_with(e: &E, vars: &[(String, V)], table: &crate::model::eval::Table, map_order_known: bool, const_funcs: &[(String, V)]) -> Vec<(Result<V, Stop>, St)> {
+    let mut out = vec![];
+    let has_exists_one = e.any(&|x| matches!(x, E::Macro(crate::model::expr::Mac::ExistsOne | crate::model::expr::Mac::ExistsOneCamel, ..)));
+    for early in [false, true] {
+        if early && !has_exists_one {
+            break;
+        }
+        let mut st = St::new(vars, table.clone());
+        st.map_order_known = map_order_known;
+        st.exists_one_stops_at_two = early;
+        st.const_funcs = const_funcs.to_vec();
+        let r = eval(e, &mut st);
+        out.push((r, st));
+    }
+    out
 }
 
 pub fn result_class(model: &Result<V, Stop>) -> &'static str {
@@ -71,23 +95,24 @@ pub fn shape_classes(e: &E) -> Vec<&'static str> {
 
 pub fn check(c: &TypedCase) -> Outcome {
     let vars = c.vars();
-    let mut st = St::new(&vars, vec![]);
-    let model = eval(&c.expr, &mut st);
-    if let Err(Stop::Unsupported(why)) = &model {
+    let variants = model_variants(&c.expr, &vars, &vec![], false);
+    if let Err(Stop::Unsupported(why)) = &variants[0].0 {
         return Outcome::Skip(why);
     }
     let src = c.expr.render();
     let (ran, log) = sut::run_logged(&src, &vars, &vec![]);
     let got = match ran {
         Ran::Done(r) => r,
-        other => return fail(format!("`{src}`: expected {:?}, observed {}", model, other.show())),
+        other => return fail(format!("`{src}`: expected {:?}, observed {}", variants[0].0, other.show())),
     };
-    if !agree(&model, &got) {
-        return fail(format!("`{src}` vars={}: reference model gives {:?}, interpreter gives {}", sut::trunc(&format!("{vars:?}"), 600), model, got.show()));
-    }
-    if log != st.log {
+    let Some((model, st)) = variants.iter().find(|(m, st)| agree(m, &got) && st.log == log) else {
+        let (model, st) = &variants[0];
+        if !agree(model, &got) {
+            return fail(format!("`{src}` vars={}: reference model gives {:?}, interpreter gives {}", sut::trunc(&format!("{vars:?}"), 600), model, got.show()));
+        }
         return fail(format!("`{src}`: host-function call log differs: model {:?}, interpreter {:?}", st.log, log));
-    }
+    };
+    let model = model.clone();
     // metamorphic: guarding the whole term by a conditional whose other branch would fail never changes the result
     let guarded = format!("(true ? {src} : (1 / 0))");
     if let Ran::Done(g2) = sut::run_logged(&guarded, &vars, &vec![]).0 {
